@@ -2260,7 +2260,10 @@ class AnsiStr(str):
 
     def clear_formatting(self) -> 'AnsiStr':
         ''' Returns a new AnsiStr object with all formatting cleared. '''
-        return AnsiStr(self.base_str)
+        # Not AnsiStr(self.base_str): that would parse the text for ANSI directives again
+        cpy = self._s.copy()
+        cpy.clear_formatting()
+        return AnsiStr(cpy)
 
     def __iter__(self) -> 'AnsiStr':
         ''' Iterates over each character of this AnsiStr '''
